@@ -81,7 +81,7 @@ package mcp
 //@   loop 1: invariant @only-served-versions forall j int :: {absElem(local(out), off(local(out)) + j)} 0 <= j && j < len(local(out)) ==> transportServes(local(pvs), local(out)[j])
 //@   loop 1: invariant @no-served-version-is-dropped len(local(out)) == ($idx > 0 && transportServes(local(pvs), protocolVersion20260728) ? 1 : 0) + ($idx > 1 && transportServes(local(pvs), protocolVersion20251125) ? 1 : 0)
 //@        + ($idx > 2 && transportServes(local(pvs), protocolVersion20250618) ? 1 : 0) + ($idx > 3 && transportServes(local(pvs), protocolVersion20250326) ? 1 : 0) + ($idx > 4 && transportServes(local(pvs), protocolVersion20241105) ? 1 : 0)
-//@   loop 1: invariant @only-versions-of-the-sdk calls(ask) == $idx && len(local(out)) <= $idx && cap(local(out)) == 5 && (forall j int :: {absElem(local(out), off(local(out)) + j)} 0 <= j && j < len(local(out)) ==> sdkListed(local(out)[j]))
+//@   loop 1: invariant @only-versions-of-the-sdk calls(ask) == $idx && len(local(out)) <= $idx && cap(local(out)) >= 5 && (forall j int :: {absElem(local(out), off(local(out)) + j)} 0 <= j && j < len(local(out)) ==> sdkListed(local(out)[j]))
 // The package initializer establishes the package invariants (checked at the assignment) and the engine's
 // frame check shows the variables named in them are never assigned again, mutated or aliased.
 //@ func init [C07, C20, C01, C04]
